@@ -35,6 +35,24 @@ Args parse_args(int argc, char **argv) {
     return a;
 }
 
+bool glob_match(const std::string &pat, const std::string &s) {
+    size_t p = 0, i = 0, star = std::string::npos, mark = 0;
+    while (i < s.size()) {
+        if (p < pat.size() && pat[p] != '*' && pat[p] == s[i]) { p++; i++; }
+        else if (p < pat.size() && pat[p] == '*') { star = p++; mark = i; }
+        else if (star != std::string::npos) { p = star + 1; i = ++mark; }
+        else return false;
+    }
+    while (p < pat.size() && pat[p] == '*') p++;
+    return p == pat.size();
+}
+bool known_match(const std::set<std::string> &known, const std::string &sig) {
+    if (known.count(sig)) return true;
+    for (auto &k : known) if (k.find('*') != std::string::npos && glob_match(k, sig)) return true;
+    return false;
+}
+bool Args::is_known(const std::string &sig) const { return known_match(known, sig); }
+
 uint64_t fnv1a(const void *p, size_t n, uint64_t h) {
     const unsigned char *c = (const unsigned char *)p;
     for (size_t i = 0; i < n; i++) { h ^= c[i]; h *= 1099511628211ULL; }
